@@ -7,6 +7,7 @@ import (
 	"hash/fnv"
 	"sort"
 	"sync"
+	"sync/atomic"
 	"time"
 
 	"github.com/aptpod/iscp-go/encoding"
@@ -176,6 +177,7 @@ type Broker struct {
 	aliasOff uint32
 	// Unreliable: the dialer also offers an unreliable transport (second in-memory pipe)
 	Unreliable   bool
+	CloseDelayMs int // the client transport's first Close blocks that long after the link went down (a closing handshake nobody answers)
 	pointHolds   []*pointHold
 	handlerHolds []*handlerHold
 	aliasReuse   bool // upstream stream aliases of closed streams are handed out again
@@ -342,8 +344,9 @@ func (b *Broker) NextToken() string {
 // ---------------------------------------------------------------------------
 
 type cliTr struct {
-	inc *Inc
-	np  transport.NegotiationParams
+	inc    *Inc
+	np     transport.NegotiationParams
+	closed int32
 }
 
 func (t *cliTr) Read() ([]byte, error) { return t.inc.cliRaw.Read() }
@@ -395,7 +398,12 @@ func (t *cliTr) Write(bs []byte) error {
 
 func (t *cliTr) Close() error {
 	t.inc.b.rec.Log("CliClose", "c", t.inc.c)
-	return t.inc.cliRaw.Close()
+	err := t.inc.cliRaw.Close()
+	if d := t.inc.b.CloseDelayMs; d > 0 && atomic.AddInt32(&t.closed, 1) == 1 {
+		// like a WebSocket closing handshake with a peer that no longer answers: the link is down, the call returns only after a timeout
+		time.Sleep(time.Duration(d) * time.Millisecond)
+	}
+	return err
 }
 func (t *cliTr) CloseWithStatus(transport.CloseStatus) error { return t.Close() }
 func (t *cliTr) RxBytesCounterValue() uint64                 { return t.inc.cliRaw.RxBytesCounterValue() }
